@@ -213,12 +213,12 @@ theorem consumes_prefix_decl (f : Nat) :
 /-- if a file includes `p` and `p` has no specification (missing, lexical error, syntax error, or an error in one
 of its own includes), the file has none -/
 theorem include_error_propagates (files : String → Option String) (f : Nat) (name src p : String)
-    (decls : List Decl) (hfile : files name = some src) (hparse : (lex src).bind parseMal = some decls)
+    (decls : List Decl) (hfile : files name = some src) (hparse : parseSource src = some decls)
     (hinc : Decl.incl p ∈ decls) (hbad : compileFile files f p = none) :
     compileFile files (f+1) name = none := compileFile_include_none files f name src p decls hfile hparse hinc hbad
 
 theorem bad_file_has_no_spec (files : String → Option String) (f : Nat) (name src : String)
-    (hfile : files name = some src) (hbad : (lex src).bind parseMal = none) :
+    (hfile : files name = some src) (hbad : parseSource src = none) :
     compileFile files f name = none := compileFile_bad_file files f name src hfile hbad
 
 theorem missing_file_has_no_spec (files : String → Option String) (f : Nat) (name : String)
@@ -226,10 +226,43 @@ theorem missing_file_has_no_spec (files : String → Option String) (f : Nat) (n
 
 /-- both together: an include of a file with a syntax error -/
 theorem include_of_malformed_file (files : String → Option String) (f : Nat) (name src p psrc : String)
-    (decls : List Decl) (hfile : files name = some src) (hparse : (lex src).bind parseMal = some decls)
-    (hinc : Decl.incl p ∈ decls) (hp : files p = some psrc) (hbad : (lex psrc).bind parseMal = none) :
+    (decls : List Decl) (hfile : files name = some src) (hparse : parseSource src = some decls)
+    (hinc : Decl.incl p ∈ decls) (hp : files p = some psrc) (hbad : parseSource psrc = none) :
     compileFile files (f+1) name = none :=
   include_error_propagates files f name src p decls hfile hparse hinc (bad_file_has_no_spec files f p psrc hp hbad)
+
+/-! ### what "does not conform to the grammar" means for a text that does not lex
+
+`parseSource` is the classifier of the property (the generated ANTLR lexer + parser with counting error listeners):
+tokens are fetched on demand, and the start rule has no `EOF`. -/
+
+/-- a text that lexes completely is judged by its tokens -/
+theorem source_of_lexable (src : String) (ts : List Tok) (h : lex src = some ts) :
+    parseSource src = parseMal ts := parseSource_of_lex h
+
+/-- a text with a lexing error is rejected whenever the parser consumes every token in front of the error
+(its next look-ahead is then the erroneous text) … -/
+theorem lex_error_reached_rejected (src : String) (ds : List Decl) (hl : lex src = none)
+    (hp : parseMalRest (lexPrefix src) = some (ds, [])) : parseSource src = none := by
+  simp [parseSource, hl, hp]
+
+/-- … or when the tokens in front of the error do not parse -/
+theorem lex_error_after_syntax_error_rejected (src : String) (hl : lex src = none)
+    (hp : parseMalRest (lexPrefix src) = none) : parseSource src = none := by
+  simp [parseSource, hl, hp]
+
+/-- and it is *not* an error of the grammar when the parser has stopped at an earlier token that cannot start a
+declaration: the lexer is never asked for the erroneous text.  (`define define "x" y "` : after the two defines the
+look-ahead `"x"` ends the start rule; the unterminated quote at the end is never fetched.) -/
+theorem lex_error_never_fetched_accepted :
+    lex "#id: \"a\" #version: \"1\" \"x\" y \"" = none ∧
+    parseSource "#id: \"a\" #version: \"1\" \"x\" y \"" = some [.define "id" "a", .define "version" "1"] :=
+  ⟨by decide +kernel, by rfl⟩
+
+/-- the same text with the stray quote directly after the last declaration is rejected -/
+theorem lex_error_as_lookahead_rejected :
+    parseSource "#id: \"a\" #version: \"1\" \"" = none := by
+  rfl
 
 /-! ### examples of rejection -/
 
